@@ -91,7 +91,10 @@ Definition run_select (v : val) : val :=
 
 (* 8. ZipToTar framing: [dirloc file] -> [[name content]...] *)
 Definition run_tar (v : val) : val :=
-  VL (map (fun m => VL [VB (fst m); VB (snd m)]) (zip_to_tar (vz (vnth 0 v)) (vb (vnth 1 v)))).
+  match zip_to_tar (vz (vnth 0 v)) (vb (vnth 1 v)) with
+  | Ok ms => VL (map (fun m => VL [VB (fst m); VB (snd m)]) ms)
+  | _ => VL []
+  end.
 
 Definition run (v : val) : val :=
   let k := vz (vnth 0 v) in
